@@ -81,16 +81,20 @@ def opOracle (op : String) (c : Ctx) (x y : Dec) (iarg : Int) (o : Out) : List (
     if x.exp - y.exp > 100000 || y.exp - x.exp > 100000 then [] else
     let a := aligned x y
     let q := a.1 / a.2.1
-    if ndigits q ≤ c.prec then
+    (if ndigits q ≤ c.prec then
       (if o.d == { form := .finite, neg := (x.neg != y.neg), exp := 0, coeff := q } && o.fl == {} && o.err == .none then []
        else [("C10", s!"expected quotient {q}")])
-    else (if o.d.form == .nan && o.fl == Cond.cDivImpossible then [] else [("C10", "expected DivisionImpossible")])
+    else (if o.d.form == .nan && o.fl == Cond.cDivImpossible then [] else [("C10", "expected DivisionImpossible")])) ++
+    (if o.fl.divImpossible == decide (ndigits q > c.prec) && !o.fl.invalidOp && !o.fl.divByZero && !o.fl.divUndefined then []
+     else [("C02", s!"DivisionImpossible must be raised exactly when the integer quotient needs more than Precision digits (quotient has {ndigits q})")])
   | "rem" =>
     if y.form != .finite || y.coeff == 0 then [] else
     if x.exp - y.exp > 100000 || y.exp - x.exp > 100000 then [] else
     let a := aligned x y
     let q := a.1 / a.2.1
     let r := a.1 % a.2.1
+    (if o.fl.divImpossible == decide (ndigits q > c.prec) && !o.fl.invalidOp && !o.fl.divByZero && !o.fl.divUndefined then []
+     else [("C02", s!"DivisionImpossible must be raised exactly when the integer quotient needs more than Precision digits (quotient has {ndigits q})")]) ++
     if ndigits q ≤ c.prec then
       if !(delivered o.err) then [] else
       let s := specRound c { neg := x.neg, num := r, den := 1, e10 := a.2.2 }
